@@ -19,22 +19,25 @@ CHECKS = {
              "macros, fixed-width, reversed, 32-bit forms; three build tiers) of the real code on that domain plus "
              "seeded values against the same operators: decoded value, four lengths, range, and the exact write "
              "footprint in a patterned window; signed 24/40/48/56-bit helpers likewise."
-             " The boundary domain also contains every integer constant found in the sources of the tree under test (and its neighbours); the 128-bit external fixed-width API and the out-of-line 32-bit readers are exercised as well.",
-        ref="DESIGN.md 4/C01", technique="TLA+ spec (ScalarBytes/ScalarModel) checked by TLC + TLC trace validation of the C API (ScalarTrace)"),
+             " The boundary domain also contains every integer constant found in the sources of the tree under test (and its neighbours); the 128-bit external fixed-width API and the out-of-line 32-bit readers are exercised as well."
+             " TaggedMath.tla: Apalache proves decode(encode(v)) = v, 'first byte announces the length' and the zig-zag bijection for ALL 2^64 values (a wrong variant must be refuted); ScalarModel!KeyBridge ties that arithmetic form to the byte-level definitions.",
+        ref="DESIGN.md 4/C01", technique="TLA+ spec (ScalarBytes/ScalarModel) checked by TLC + TLC trace validation of the C API (ScalarTrace) + Apalache lemmas over the unbounded 64-bit domain"),
     "C04": dict(
         text="The documented wire formats are transcribed into TLA+ from comments/README (never from function bodies); "
              "TLC checks canonicity, shortest-length and monotonicity on the boundary domain and documented maxima, "
              "and trace validation compares every byte the real encoders produce (all families, fixed/reversed forms, "
              "Elias gamma/delta bit strings, zig-zag) with the reference encoder: an oracle that is not the library."
-             " Mined source constants join the domain (a threshold introduced by a change is exercised on both sides).",
-        ref="DESIGN.md 4/C04", technique="TLA+ reference encoders checked by TLC + byte-exact TLC trace validation"),
+             " Mined source constants join the domain (a threshold introduced by a change is exercised on both sides)."
+             " TaggedMath.tla (Apalache): length monotonicity and round trip of the tagged format for all 2^64 values.",
+        ref="DESIGN.md 4/C04", technique="TLA+ reference encoders checked by TLC + byte-exact TLC trace validation + Apalache lemmas over the unbounded 64-bit domain"),
     "C05": dict(
         text="TLC checks memcmp-order, equality and prefix-freeness of the tagged format on all adjacent pairs of the "
              "sorted boundary domain (order on the domain follows by transitivity); trace validation checks the sign "
              "of the C library's memcmp over keys the real encoder produced for boundary pairs, one-byte-different "
              "pairs, random pairs and tuples of 1..3 values."
-             " Keys are also produced through the 32-bit and fixed-width writers and by in-place adds (large steps and counter-style +-1..256 steps): a stored varint must be THE encoding of its value however it got there.",
-        ref="DESIGN.md 4/C05", technique="TLA+ order lemmas checked by TLC + TLC trace validation of memcmp over real keys"),
+             " Keys are also produced through the 32-bit and fixed-width writers and by in-place adds (large steps and counter-style +-1..256 steps): a stored varint must be THE encoding of its value however it got there."
+             " TaggedMath.tla: Apalache proves that the memcmp key is strictly increasing over ALL pairs of 64-bit values (hence also injective), not only on the boundary domain.",
+        ref="DESIGN.md 4/C05", technique="TLA+ order lemmas checked by TLC + TLC trace validation of memcmp over real keys + Apalache lemmas over the unbounded 64-bit domain"),
     "C07": dict(
         text="FloatCodec.tla states the contract on IEEE-754 bit patterns in exact integer arithmetic (specials and FULL "
              "bit-exact; reduced precision |dec-x| <= |x|*2^-mb or infinity when x rounds above DBL_MAX; auto selection "
@@ -43,8 +46,9 @@ CHECKS = {
              "prints the value classes; the real codec is run on every class alone and in mixed arrays in all "
              "precision x exponent-mode pairs, on arrays with exponent spread > 255 and on requested errors around "
              "each mode bound; FloatTrace.tla judges every element."
-             " FloatModel.tla also models the array level of COMMON_EXPONENT mode (offset width, fallback decided on the stored exponents); exponent-span classes around 255, exactK mantissa classes and arrays homogeneous in what their values need feed the automatic precision selection.",
-        ref="DESIGN.md 4/C07", technique="TLA+ contract + toy-format algorithm model checked exhaustively by TLC + TLC trace validation on binary64 bit patterns"),
+             " FloatModel.tla also models the array level of COMMON_EXPONENT mode (offset width, fallback decided on the stored exponents); exponent-span classes around 255, exactK mantissa classes and arrays homogeneous in what their values need feed the automatic precision selection."
+             " FloatMath.tla: Apalache proves the contract for the documented algorithm on the real binary64 format, every normal double x {4, 10, 23} kept bits.",
+        ref="DESIGN.md 4/C07", technique="TLA+ contract + toy-format algorithm model checked exhaustively by TLC + TLC trace validation on binary64 bit patterns + Apalache lemmas over the unbounded 64-bit domain"),
     "C08": dict(
         text="BitmapModel.tla checks exhaustively (universe 0..7, threshold 3) that the three-container design with "
              "conversions and incremental cardinality refines a mathematical set under every history (the pre-fix "
@@ -73,8 +77,9 @@ CHECKS = {
              "reservation where only the header page and the expected cell's page are accessible; small matrices of "
              "every entry kind get 14-step write sequences. DimensionTrace.tla requires every changed byte to lie in "
              "the addressed cell, checks cell bytes, read-back, bit clear/toggle semantics, and carries the matrix "
-             "content as state to check re-reads of earlier cells.",
-        ref="DESIGN.md 4/C10", technique="TLA+ format/address spec checked by TLC + TLC-enumerated dimension pairs + stateful TLC trace validation with sparse guard mappings"),
+             "content as state to check re-reads of earlier cells."
+             " DimensionMath.tla: Apalache proves pair packing (minimal level, fits 64 bits, unpack(pack) = id, refusal exactly from 2^32) for every pair.",
+        ref="DESIGN.md 4/C10", technique="TLA+ format/address spec checked by TLC + TLC-enumerated dimension pairs + stateful TLC trace validation with sparse guard mappings + Apalache lemmas over the unbounded 64-bit domain"),
     "C11": dict(
         text="BitstreamModel.tla checks the documented high/low split algorithm against the flat MSB-first bit-string "
              "contract exhaustively for 4-bit words (all contents of 3 words, offsets, widths, values; a wrong-mask "
